@@ -332,6 +332,23 @@ func fileKeys() []fileKey {
 				add(k, true)
 			}
 		}
+		// OKP keys on the other RFC 8037 curves, as a key-set file may hold them (only the JSON route can
+		// build them): the rule speaks of key type and algorithm, and OKP + EdDSA is an approved pair
+		for _, c := range []struct {
+			crv string
+			n   int
+		}{{"Ed448", 57}, {"X25519", 32}, {"X448", 56}} {
+			x := make([]byte, c.n)
+			for i := range x {
+				x[i] = byte(i + 1)
+			}
+			js := fmt.Sprintf(`{"kty":"OKP","crv":"%s","x":"%s","alg":"EdDSA","kid":"okp-%s"}`, c.crv, base64.RawURLEncoding.EncodeToString(x), c.crv)
+			k, err := jwk.ParseKey([]byte(js))
+			if err != nil || k.Validate() != nil {
+				continue // the JOSE library does not take this curve: nothing to say
+			}
+			add(k, true)
+		}
 		// valid keys published without a `kid` (a key set exported without ids)
 		for i, p := range keys.Pool() {
 			if p.PrivSet == nil || i%2 == 0 {
